@@ -302,15 +302,17 @@ class Validator(PySHACLRunType):
 
         if self.debug:
             self.logger.debug(f"Validating DataGraph named {g.identifier}")
-        if advanced:
-            if advanced['functions']:
-                apply_functions(executor, advanced['functions'], g)
-            if advanced['rules']:
-                if executor.sparql_mode:
-                    self.logger.warning("Skipping SHACL Rules because operating in SPARQL Remote Graph Mode.")
-                else:
-                    apply_rules(executor, advanced['rules'], g, focus_nodes=on_focus_nodes)
         try:
+            # registering the SHACL functions and running the rules is inside the try, so that the
+            # functions are unregistered again when registering or a rule fails
+            if advanced:
+                if advanced['functions']:
+                    apply_functions(executor, advanced['functions'], g)
+                if advanced['rules']:
+                    if executor.sparql_mode:
+                        self.logger.warning("Skipping SHACL Rules because operating in SPARQL Remote Graph Mode.")
+                    else:
+                        apply_rules(executor, advanced['rules'], g, focus_nodes=on_focus_nodes)
             for s in shapes:
                 _is_conform, _reports = s.validate(executor, g, focus=on_focus_nodes)
                 non_conformant = non_conformant or (not _is_conform)
